@@ -57,13 +57,17 @@ theorem tailLoop_spec : ∀ (fuel : Nat) (s : St) (g : Gen), GoodT s g → g.rem
         have hgs := getTrk_set (s := s) (s' := setTrk s i { getTrk s i with result := .none }) rfl
         have hg' : GoodT (setTrk s i { getTrk s i with result := .none })
             { g with buf := (getTrk s i).items, remaining := rest } := by
-          refine ⟨⟨hg.idle.running, hg.idle.jobs, hg.idle.jobsSet, ?_, ?_, hg.idle.parked_nodup⟩,
+          refine ⟨⟨hg.idle.running, hg.idle.jobs, hg.idle.jobsSet, ?_, ?_, hg.idle.parked_nodup, ?_⟩,
             ⟨hg.clean.running, hg.clean.jobs, hg.clean.jobsSet, hg.clean.calling⟩, hg.noexc, ?_, hnd.2, hg.hung,
             hg.noiter, ?_⟩
           · intro j
             have := hg.idle.callId_le j
             rw [hgs]; show _ ≤ s.callCtr; grind
           · intro j hj; have := hg.idle.parked_lt j hj; simpa [setTrk] using this
+          · refine Or.inr ?_
+            intro j hj
+            have := hg.stale j hj
+            rw [hgs]; show _ ≠ s.callId; grind
           · intro j hj
             have hji : i ≠ j := fun e => hnd.1 (e ▸ hj)
             rw [hgs]; simp only [hji, false_and, if_false]
@@ -229,13 +233,12 @@ theorem raise_end {c : Cfg} {t0 : Nat} {s s3 : St} (h : GoodR c t0 s)
     (hfi : s3.failIds = s.failIds) :
     Idle (handleException c s3) ∧ Clean (handleException c s3) ∧ (handleException c s3).exception = true ∧
     (handleException c s3).hung = false ∧ (handleException c s3).failIds = s.failIds := by
-  obtain ⟨lg, pk, he, hpk'⟩ := handleException_eq c s3
+  obtain ⟨lg, pk, sc, ib, he, hpk', _⟩ := handleException_eq c s3
   rw [he]
-  refine ⟨idle_of_end h.inv.T h.cid hg hlen hctr ?_ rfl rfl rfl, ⟨rfl, rfl, rfl, rfl⟩, rfl,
+  refine ⟨idle_of_end h.inv.T h.cid hg hlen hctr ?_ (Or.inl rfl) rfl rfl rfl, ⟨rfl, rfl, rfl, rfl⟩, rfl,
     by show s3.hung = false; rw [hhu]; exact h.hung, hfi⟩
-  rcases hpk' with hpk' | hpk'
-  · left; show pk = s.parked; rw [hpk', hpk]
-  · right; exact hpk'
+  show pk.Sublist s.parked
+  rw [← hpk]; exact hpk'
 
 /-- Normal exit of the retrieval loop: `finally`, then the tail loop over what is still queued. -/
 theorem rl_exit {c : Cfg} {t0 : Nat} {s : St} {g : Gen} (fuel : Nat) (ho : ordered c = true)
@@ -259,21 +262,22 @@ theorem rl_exit {c : Cfg} {t0 : Nat} {s : St} {g : Gen} (fuel : Nat) (ho : order
     have h1 := h.inv.S.src_iter x
     have h2 := (h.inv.S.dead hna hpost.2).2
     omega
+  have hstale : AllStale { s with log := lg, jobs := [], jobsSet := [], running := false, calling := false } := by
+    intro i hi hcid
+    have hcid' : (getTrk s i).callId = s.callId := hcid
+    obtain ⟨i0, i1⟩ := own_of_callId h.inv.T hcid'
+    have hpend : (getTrk s i).status = .pending :=
+      (h.inv.T.parked_pending hna i i0 i1).mpr (Or.inl hi)
+    rcases Nat.lt_or_ge i p with hlt | hge
+    · exact p4 i i0 hlt hpend
+    · have hmem : i ∈ s.jobs := by rw [p3, List.mem_range'_1]; omega
+      rw [(hdone i hmem).1] at hpend; cases hpend
   have hgt : GoodT { s with log := lg, jobs := [], jobsSet := [], running := false, calling := false }
       { g with phase := .tail, remaining := s.jobs } := by
-    refine ⟨idle_of_end h.inv.T h.cid (fun _ => rfl) rfl rfl (Or.inl rfl) rfl rfl rfl, ⟨rfl, rfl, rfl, rfl⟩,
-      hexc, hdone, ?_, h.hung, hnoit, ?_⟩
-    · show s.jobs.Nodup
-      rw [p3]; exact List.nodup_range' (step := 1) (by omega)
-    · intro i hi hcid
-      have hcid' : (getTrk s i).callId = s.callId := hcid
-      obtain ⟨i0, i1⟩ := own_of_callId h.inv.T hcid'
-      have hpend : (getTrk s i).status = .pending :=
-        (h.inv.T.parked_pending hna i i0 i1).mpr (Or.inl hi)
-      rcases Nat.lt_or_ge i p with hlt | hge
-      · exact p4 i i0 hlt hpend
-      · have hmem : i ∈ s.jobs := by rw [p3, List.mem_range'_1]; omega
-        rw [(hdone i hmem).1] at hpend; cases hpend
+    refine ⟨idle_of_end h.inv.T h.cid (fun _ => rfl) rfl rfl (List.Sublist.refl _) (Or.inr hstale) rfl rfl rfl,
+      ⟨rfl, rfl, rfl, rfl⟩, hexc, hdone, ?_, h.hung, hnoit, hstale⟩
+    show s.jobs.Nodup
+    rw [p3]; exact List.nodup_range' (step := 1) (by omega)
   have hrest : g.buf ++ restS s =
       restT { s with log := lg, jobs := [], jobsSet := [], running := false, calling := false }
         { g with phase := .tail, remaining := s.jobs } := by
